@@ -43,7 +43,7 @@ def report(pid, fails, passfeat, findings, maxk=3, top=25):
             _, c, n, pw = best
             ex = min((f for f in remaining if set(c) <= set(f.get("features", []))), key=lambda f: f.get("size", 0))
             print("  trigger=%s  fails=%d passes_with_trigger=%d" % (json.dumps(list(c)), n, pw))
-            print("     example:", json.dumps(ex.get("detail"), default=repr, ensure_ascii=False)[:1500])
+            print("     example:", json.dumps(ex.get("detail"), default=repr, ensure_ascii=False)[:700])
             remaining = [f for f in remaining if not set(c) <= set(f.get("features", []))]
         if remaining:
             print("  ... %d failures not clustered" % len(remaining))
